@@ -233,97 +233,265 @@ Proof.
 Qed.
 
 (* ELook c, c < 4 *)
+Lemma out_of_look c X P r : c < 4 -> out_of (mkenc (ELook c) X P r) = body_out c X P r.
+Proof. intros H. unfold out_of. cbn [est ecrc epad eiter]. destruct (N.ltb_spec c 4); [reflexivity|lia]. Qed.
+
+Lemma out_of_look4 X P r :
+  out_of (mkenc (ELook 4) X P r) = [27;27;27;27] ++ body_out 0 (crc_update X [27;27;27;27]) P r.
+Proof. reflexivity. Qed.
+
+Lemma body_out_cons c X P b r :
+  body_out c X P (b :: r) =
+  let c' := if b =? 27 then c + 1 else 0 in
+  b :: (if c' =? 4
+        then [27;27;27;27] ++ body_out 0 (crc_update (crc_update X [b]) [27;27;27;27]) ((P + 255) mod 256) r
+        else body_out c' (crc_update X [b]) ((P + 255) mod 256) r).
+Proof.
+  unfold body_out. cbn [enc_from]. cbv zeta.
+  assert (Hpf : pad_final P (b :: r) = pad_final ((P + 255) mod 256) r) by reflexivity.
+  rewrite Hpf.
+  destruct ((if b =? 27 then c + 1 else 0) =? 4); rewrite <- !crc_update_app; reflexivity.
+Qed.
+
+Lemma enc_next_look_nil f c X P :
+  c < 4 ->
+  enc_next (S f) (mkenc (ELook c) X P []) =
+  enc_next f (mkenc (EEnd (- Z.of_N (N.land P 3)))
+                    (crc_update (crc_update X (repeat 0 (N.to_nat (N.land P 3)))) [27;27;27;27;26; N.land P 3])
+                    P []).
+Proof.
+  intros H. cbn [enc_next est eiter]. destruct (N.ltb_spec c 4); [|lia].
+  unfold pad_get. cbn [epad ecrc]. reflexivity.
+Qed.
+
+Lemma enc_next_look_cons f c X P b r :
+  c < 4 ->
+  enc_next (S f) (mkenc (ELook c) X P (b :: r)) =
+  (mkenc (ELook ((c + 1) * (if b =? 27 then 1 else 0))) (crc_update X [b]) ((P + 255) mod 256) r, EByte b).
+Proof.
+  intros H. cbn [enc_next est eiter]. destruct (N.ltb_spec c 4); [|lia]. reflexivity.
+Qed.
+
 Lemma look_step f e c :
   est e = ELook c -> c < 4 -> step_ok (S (S f)) e.
 Proof.
-  intros He Hc. unfold step_ok, out_of. rewrite He.
-  destruct (N.ltb_spec c 4); [|lia].
-  destruct e as [s X P r]. cbn [est ecrc epad eiter] in *. subst s.
+  intros He Hc. destruct e as [s X P r]. cbn [est] in He. subst s.
+  unfold step_ok. rewrite out_of_look by exact Hc.
   destruct r as [|b r].
   - (* input exhausted: the end sequence *)
-    unfold body_out. cbn [pad_final fold_left enc_from app crc_update].
-    set (p := N.land P 3).
-    assert (Hp : p <= 3) by apply land3_le.
-    set (X2 := fold_left crc_step [27; 27; 27; 27; 26; p] (fold_left crc_step (repeat 0 (N.to_nat p)) X)).
-    pose proof (end_step f (mkenc (EEnd (- Z.of_N p)) X2 P []) (- Z.of_N p) eq_refl ltac:(lia)) as HE.
-    unfold step_ok, out_of in HE. cbn [est ecrc epad] in HE.
-    cbn [enc_next est]. destruct (N.ltb_spec c 4); [|lia]. cbn [eiter].
-    unfold pad_get. cbn [epad ecrc]. fold p.
-    unfold crc_update at 1 2. fold X2. exact HE.
+    unfold body_out. cbn [pad_final fold_left enc_from app]. rewrite crc_update_nil.
+    rewrite enc_next_look_nil by exact Hc.
+    pose proof (land3_le P) as Hp.
+    generalize dependent (N.land P 3). intros p Hp.
+    generalize (crc_update (crc_update X (repeat 0 (N.to_nat p))) [27; 27; 27; 27; 26; p]). intros X2.
+    rewrite end_out_cons by lia.
+    eexists. split; [apply enc_next_end; [reflexivity|lia]|].
+    split; [|unfold valid; cbn [est set_est]; lia].
+    unfold out_of. cbn [est set_est ecrc epad]. reflexivity.
   - (* one more payload byte *)
-    unfold body_out. cbn [enc_from].
+    rewrite body_out_cons. cbv zeta.
+    rewrite enc_next_look_cons by exact Hc.
     set (c' := if b =? 27 then c + 1 else 0).
-    cbn [enc_next est]. destruct (N.ltb_spec c 4); [|lia]. cbn [eiter ecrc epad].
     assert (Hc' : (c + 1) * (if b =? 27 then 1 else 0) = c') by (unfold c'; destruct (b =? 27); lia).
     rewrite Hc'.
-    assert (Hpf : pad_final P (b :: r) = pad_final ((P + 255) mod 256) r) by reflexivity.
+    eexists. split; [reflexivity|].
     destruct (N.eqb_spec c' 4) as [E4|N4].
-    + cbn [app]. eexists. split; [reflexivity|]. split; [|unfold valid; cbn; lia].
-      unfold out_of. cbn [est ecrc epad eiter]. rewrite E4.
-      destruct (N.ltb_spec 4 4); [lia|]. unfold body_out.
-      rewrite Hpf. rewrite <- !crc_update_app. cbn [app]. reflexivity.
-    + cbn [app]. eexists. split; [reflexivity|]. split; [|unfold valid; cbn; unfold c'; destruct (b =? 27); lia].
-      unfold out_of. cbn [est ecrc epad eiter].
-      destruct (N.ltb_spec c' 4); [|unfold c' in *; destruct (b =? 27); lia]. unfold body_out.
-      rewrite Hpf. rewrite <- !crc_update_app. cbn [app]. reflexivity.
+    + rewrite E4. split; [apply out_of_look4|unfold valid; cbn; lia].
+    + split; [apply out_of_look; unfold c' in *; destruct (b =? 27); lia|].
+      unfold valid; cbn; unfold c'; destruct (b =? 27); lia.
+Qed.
+
+(* one-level unfoldings of enc_next for the remaining states *)
+Lemma enc_next_init_lt4 f e n :
+  est e = EInit n -> n < 4 -> enc_next (S f) e = (set_est e (EInit (n + 1)), EByte 27).
+Proof. intros He H. cbn [enc_next]. rewrite He. destruct (N.ltb_spec n 4); [reflexivity|lia]. Qed.
+
+Lemma enc_next_init_lt8 f e n :
+  est e = EInit n -> 4 <= n < 8 -> enc_next (S f) e = (set_est e (EInit (n + 1)), EByte 1).
+Proof.
+  intros He H. cbn [enc_next]. rewrite He. destruct (N.ltb_spec n 4); [lia|].
+  destruct (N.ltb_spec n 8); [reflexivity|lia].
+Qed.
+
+Lemma enc_next_init_8 f e :
+  est e = EInit 8 -> enc_next (S f) e = enc_next f (set_est e (ELook 0)).
+Proof. intros He. cbn [enc_next]. rewrite He. reflexivity. Qed.
+
+Lemma enc_next_look4 f e :
+  est e = ELook 4 ->
+  enc_next (S f) e = enc_next f (mkenc (EHandle 0) (crc_update (ecrc e) [27;27;27;27]) (epad e) (eiter e)).
+Proof. intros He. cbn [enc_next]. rewrite He. reflexivity. Qed.
+
+Lemma enc_next_handle_lt4 f e n :
+  est e = EHandle n -> n < 4 -> enc_next (S f) e = (set_est e (EHandle (n + 1)), EByte 27).
+Proof. intros He H. cbn [enc_next]. rewrite He. destruct (N.ltb_spec n 4); [reflexivity|lia]. Qed.
+
+Lemma enc_next_handle_4 f e :
+  est e = EHandle 4 -> enc_next (S f) e = enc_next f (set_est e (ELook 0)).
+Proof. intros He. cbn [enc_next]. rewrite He. reflexivity. Qed.
+
+Lemma body_out_nonempty c X P r : body_out c X P r <> [].
+Proof.
+  unfold body_out. intros E. apply app_eq_nil in E. destruct E as [_ E].
+  pose proof (land3_le (pad_final P r)) as Hl.
+  rewrite end_out_cons in E by lia. discriminate.
+Qed.
+
+Lemma skipn_start n :
+  n < 8 -> skipn (N.to_nat n) start_seq = (if n <? 4 then 27 else 1) :: skipn (N.to_nat (n + 1)) start_seq.
+Proof.
+  intros H.
+  assert (n = 0 \/ n = 1 \/ n = 2 \/ n = 3 \/ n = 4 \/ n = 5 \/ n = 6 \/ n = 7) as Hc by lia.
+  repeat (destruct Hc as [->|Hc]; [reflexivity|]). subst n. reflexivity.
+Qed.
+
+Lemma repeat27_handle n :
+  n < 4 -> repeat 27 (4 - N.to_nat n) = 27 :: repeat 27 (4 - N.to_nat (n + 1)).
+Proof.
+  intros H. assert (n = 0 \/ n = 1 \/ n = 2 \/ n = 3) as Hc by lia.
+  repeat (destruct Hc as [->|Hc]; [reflexivity|]). subst n. reflexivity.
+Qed.
+
+(* a state that silently moves to ELook 0 behaves like ELook 0 *)
+Lemma via_look0 e :
+  out_of e = body_out 0 (ecrc e) (epad e) (eiter e) ->
+  enc_next 4 e = enc_next 3 (set_est e (ELook 0)) ->
+  step_ok 4 e.
+Proof.
+  intros Ho Hn.
+  pose proof (look_step 1 (set_est e (ELook 0)) 0 eq_refl ltac:(lia)) as HL.
+  unfold step_ok in *. rewrite Ho.
+  assert (Ho0 : out_of (set_est e (ELook 0)) = body_out 0 (ecrc e) (epad e) (eiter e)).
+  { unfold set_est. apply out_of_look. lia. }
+  rewrite Ho0 in HL. rewrite Hn.
+  destruct (body_out 0 (ecrc e) (epad e) (eiter e)) as [|b rest] eqn:Eb.
+  - exfalso. eapply body_out_nonempty. exact Eb.
+  - exact HL.
 Qed.
 
 Theorem next_step e : valid e -> step_ok enc_fuel e.
 Proof.
   intros V. unfold enc_fuel. destruct (est e) as [n|c|n|n] eqn:He; unfold valid in V; rewrite He in V.
   - (* EInit *)
-    destruct (N.ltb_spec n 4) as [H4|H4].
-    + unfold step_ok, out_of. rewrite He. cbn [enc_next]. rewrite He.
-      destruct (N.ltb_spec n 4); [|lia].
-      assert (n = 0 \/ n = 1 \/ n = 2 \/ n = 3) as Hc by lia.
-      destruct Hc as [->|[->|[->| ->]]]; cbn [N.to_nat Pos.to_nat Pos.iter_op Nat.add skipn start_seq app];
-        (eexists; split; [reflexivity|]; split; [unfold out_of; cbn; reflexivity|unfold valid; cbn; lia]).
-    + destruct (N.ltb_spec n 8) as [H8|H8].
-      * unfold step_ok, out_of. rewrite He. cbn [enc_next]. rewrite He.
-        destruct (N.ltb_spec n 4); [lia|]. destruct (N.ltb_spec n 8); [|lia].
-        assert (n = 4 \/ n = 5 \/ n = 6 \/ n = 7) as Hc by lia.
-        destruct Hc as [->|[->|[->| ->]]]; cbn [N.to_nat Pos.to_nat Pos.iter_op Nat.add skipn start_seq app];
-          (eexists; split; [reflexivity|]; split; [unfold out_of; cbn; reflexivity|unfold valid; cbn; lia]).
-      * assert (n = 8) by lia. subst n.
-        pose proof (look_step 1 (set_est e (ELook 0)) 0 eq_refl ltac:(lia)) as HL.
-        unfold step_ok in *. unfold out_of in *. rewrite He. cbn [set_est est ecrc epad eiter] in HL.
-        destruct (N.ltb_spec 0 4); [|lia].
-        cbn [enc_next]. rewrite He.
-        destruct (N.ltb_spec 8 4); [lia|]. destruct (N.ltb_spec 8 8); [lia|].
-        destruct (N.eqb_spec 8 8); [|lia].
-        change (skipn (N.to_nat 8) start_seq) with (@nil N). cbn [app].
-        destruct (body_out 0 (ecrc e) (epad e) (eiter e)) as [|b rest] eqn:Eb.
-        -- (* impossible: the body always ends with the end sequence *)
-           exfalso. unfold body_out in Eb. apply app_eq_nil in Eb. destruct Eb as [_ Eb].
-           unfold end_out in Eb. apply app_eq_nil in Eb. destruct Eb as [_ Eb].
-           pose proof (land3_le (pad_final (epad e) (eiter e))) as Hl.
-           set (q := N.land (pad_final (epad e) (eiter e)) 3) in *.
-           replace (Z.to_nat (- Z.of_N q)) with 0%nat in Eb by lia. discriminate.
-        -- exact HL.
+    destruct (N.ltb_spec n 8) as [H8|H8].
+    + unfold step_ok. unfold out_of at 1. rewrite He. rewrite skipn_start by exact H8. cbn [app].
+      destruct (N.ltb_spec n 4) as [H4|H4].
+      * eexists. split; [apply (enc_next_init_lt4 3 e n He H4)|].
+        split; [unfold out_of; cbn [est set_est ecrc epad eiter]; reflexivity|unfold valid; cbn [est set_est]; lia].
+      * eexists. split; [apply (enc_next_init_lt8 3 e n He); lia|].
+        split; [unfold out_of; cbn [est set_est ecrc epad eiter]; reflexivity|unfold valid; cbn [est set_est]; lia].
+    + assert (n = 8) by lia. subst n.
+      apply via_look0.
+      * unfold out_of. rewrite He. reflexivity.
+      * apply enc_next_init_8. exact He.
   - (* ELook *)
     destruct (N.ltb_spec c 4) as [H4|H4].
     + apply look_step with (c := c); assumption.
     + assert (c = 4) by lia. subst c.
-      unfold step_ok, out_of. rewrite He. destruct (N.ltb_spec 4 4); [lia|].
-      cbn [enc_next]. rewrite He. destruct (N.ltb_spec 4 4); [lia|]. destruct (N.eqb_spec 4 4); [|lia].
-      cbn [est]. destruct (N.ltb_spec 0 4); [|lia]. cbn [app].
-      eexists. split; [reflexivity|]. split; [|unfold valid; cbn; lia].
-      unfold out_of. cbn [est set_est ecrc epad eiter]. reflexivity.
+      unfold step_ok. unfold out_of at 1. rewrite He. destruct (N.ltb_spec 4 4); [lia|]. cbn [app].
+      rewrite enc_next_look4 by exact He.
+      eexists. split; [apply enc_next_handle_lt4 with (n := 0); [reflexivity|lia]|].
+      split; [unfold out_of; cbn [est set_est ecrc epad eiter]; reflexivity|unfold valid; cbn [est set_est]; lia].
   - (* EHandle *)
     destruct (N.ltb_spec n 4) as [H4|H4].
-    + unfold step_ok, out_of. rewrite He. cbn [enc_next]. rewrite He.
-      destruct (N.ltb_spec n 4); [|lia].
-      assert (n = 0 \/ n = 1 \/ n = 2 \/ n = 3) as Hc by lia.
-      destruct Hc as [->|[->|[->| ->]]]; cbn [N.to_nat Pos.to_nat Pos.iter_op Nat.add Nat.sub repeat app];
-        (eexists; split; [reflexivity|]; split; [unfold out_of; cbn; reflexivity|unfold valid; cbn; lia]).
+    + unfold step_ok. unfold out_of at 1. rewrite He. rewrite repeat27_handle by exact H4. cbn [app].
+      eexists. split; [apply (enc_next_handle_lt4 3 e n He H4)|].
+      split; [unfold out_of; cbn [est set_est ecrc epad eiter]; reflexivity|unfold valid; cbn [est set_est]; lia].
     + assert (n = 4) by lia. subst n.
-      pose proof (look_step 1 (set_est e (ELook 0)) 0 eq_refl ltac:(lia)) as HL.
-      unfold step_ok in *. unfold out_of in *. rewrite He. cbn [set_est est ecrc epad eiter] in HL.
-      destruct (N.ltb_spec 0 4); [|lia].
-      cbn [enc_next]. rewrite He.
-      destruct (N.ltb_spec 4 4); [lia|]. destruct (N.eqb_spec 4 4); [|lia].
-      change (repeat 27 (4 - N.to_nat 4)) with (@nil N). cbn [app].
-      exact HL.
+      apply via_look0.
+      * unfold out_of. rewrite He. reflexivity.
+      * apply enc_next_handle_4. exact He.
   - (* EEnd *)
     apply end_step with (n := n); assumption.
+Qed.
+
+(* ---------- collecting the iterator ---------- *)
+Lemma collect_spec : forall n e acc lim,
+  length (out_of e) = n -> valid e -> (n < lim)%nat ->
+  exists e', enc_collect_from lim e acc = (e', rev acc ++ out_of e, ENone) /\ out_of e' = [] /\ valid e'.
+Proof.
+  induction n as [|n IH]; intros e acc lim Hn V Hl.
+  - destruct lim as [|l]; [lia|].
+    pose proof (next_step e V) as S. unfold step_ok in S.
+    destruct (out_of e) as [|b rest] eqn:Eo; [|discriminate].
+    cbn [enc_collect_from]. rewrite S. rewrite frev_eq, app_nil_r.
+    exists e. repeat split; assumption.
+  - destruct lim as [|l]; [lia|].
+    pose proof (next_step e V) as S. unfold step_ok in S.
+    destruct (out_of e) as [|b rest] eqn:Eo; [discriminate|].
+    destruct S as (e1 & Hs & Ho1 & V1).
+    cbn [enc_collect_from]. rewrite Hs.
+    cbn [length] in Hn.
+    destruct (IH e1 (b :: acc) l ltac:(rewrite Ho1; lia) V1 ltac:(lia)) as (e' & Hc & He' & Ve').
+    exists e'. rewrite Hc, Ho1. cbn [rev]. rewrite <- app_assoc. cbn [app]. repeat split; assumption.
+Qed.
+
+Lemma after_spec : forall k e, out_of e = [] -> valid e -> enc_after k e = repeat ENone k.
+Proof.
+  induction k as [|k IH]; intros e Ho V; [reflexivity|].
+  pose proof (next_step e V) as S. unfold step_ok in S. rewrite Ho in S.
+  cbn [enc_after]. rewrite S. cbn [repeat]. rewrite IH by assumption. reflexivity.
+Qed.
+
+Lemma pad_final_spec r : forall P, P < 256 -> pad_final P r = (P + 255 * lenN r) mod 256.
+Proof.
+  induction r as [|b r IH]; intros P HP; unfold pad_final in *; cbn [fold_left].
+  - change (lenN (@nil N)) with 0. rewrite N.mul_0_r, N.add_0_r. symmetry. apply N.mod_small. exact HP.
+  - rewrite IH by (apply N.mod_lt; lia). rewrite lenN_cons. lia.
+Qed.
+
+Lemma out_of_new p : out_of (enc_new p) = frame p.
+Proof.
+  unfold out_of, enc_new. cbn [est ecrc epad eiter]. change (skipn (N.to_nat 0) start_seq) with start_seq.
+  unfold body_out, frame. rewrite esc_as_enc_from.
+  set (body := enc_from 0 p).
+  rewrite pad_final_spec by lia.
+  rewrite land3_mod.
+  set (q := ((0 + 255 * lenN p) mod 256) mod 4).
+  assert (Hq : q = N.of_nat (pad_of (length body))).
+  { unfold q, pad_of, lenN. pose proof (enc_from_length_mod p 0) as Hm. fold body in Hm. lia. }
+  assert (Hq3 : q <= 3) by (unfold q; lia).
+  unfold end_out.
+  replace (Z.to_nat (- - Z.of_N q)) with (N.to_nat q) by lia.
+  replace (Z.to_nat (- Z.of_N q)) with 0%nat by lia.
+  cbn [skipn]. unfold end_bytes.
+  rewrite land3_mod. fold q.
+  assert (Hpn : pad_of (length body) = N.to_nat q) by lia.
+  rewrite Hpn, N2Nat.id.
+  set (pre := start_seq ++ body ++ repeat 0 (N.to_nat q) ++ [27; 27; 27; 27; 26; q]).
+  assert (Hc : crc_finalize (crc_update (crc_update (crc_update crc_start body) (repeat 0 (N.to_nat q))) [27; 27; 27; 27; 26; q])
+               = crc16 pre).
+  { unfold crc16, pre, crc_start. rewrite <- !crc_update_app. reflexivity. }
+  rewrite Hc. unfold pre. rewrite <- !app_assoc. reflexivity.
+Qed.
+
+Lemma frame_length_le p : (length (frame p) < enc_limit p)%nat.
+Proof.
+  unfold frame, enc_limit. rewrite esc_as_enc_from.
+  rewrite !app_length, repeat_length. cbn [length start_seq].
+  pose proof (enc_from_length_le p 0). unfold pad_of. lia.
+Qed.
+
+Lemma valid_new p : valid (enc_new p).
+Proof. unfold valid, enc_new. cbn. lia. Qed.
+
+Theorem enc_collect_correct p : enc_collect p = frame p.
+Proof.
+  unfold enc_collect.
+  destruct (collect_spec (length (out_of (enc_new p))) (enc_new p) [] (enc_limit p) eq_refl (valid_new p))
+    as (e' & Hc & _ & _).
+  { rewrite out_of_new. apply frame_length_le. }
+  rewrite Hc. cbn [fst snd rev app]. apply out_of_new.
+Qed.
+
+(* the iterator ends for good: every further call returns None *)
+Theorem enc_ends_for_good p k :
+  exists e', fst (fst (enc_collect_from (enc_limit p) (enc_new p) [])) = e' /\
+             snd (enc_collect_from (enc_limit p) (enc_new p) []) = ENone /\
+             enc_after k e' = repeat ENone k.
+Proof.
+  destruct (collect_spec (length (out_of (enc_new p))) (enc_new p) [] (enc_limit p) eq_refl (valid_new p))
+    as (e' & Hc & Ho & V).
+  { rewrite out_of_new. apply frame_length_le. }
+  exists e'. rewrite Hc. cbn [fst snd]. repeat split. apply after_spec; assumption.
 Qed.
